@@ -177,6 +177,16 @@ func validatorsCase(app *fx.App, tr *fx.Trace, r *fx.Rng) {
 	app.RollingseedKeeper.SetRollingSeed(ctx, seed)
 	p := ok.GetParams(ctx)
 	p.SamplingTryCount = uint64(r.PickInt(1, 2, 3, 5))
+	// the property quantifies over every sampling_try_count the chain ACCEPTS: boundary values that Params.Validate
+	// lets through are tried too (on the unchanged tree 0 is rejected and never reaches the sampler)
+	if r.Chance(1, 5) {
+		q := p
+		q.SamplingTryCount = 0
+		if q.Validate() == nil {
+			p = q
+			tr.Tag("accepted-try-count-0")
+		}
+	}
 	fx.Must(ok.SetParams(ctx, p))
 	var elig [][]any
 	all := [][]any{}
@@ -209,7 +219,11 @@ func validatorsCase(app *fx.App, tr *fx.Trace, r *fx.Rng) {
 		errS := fx.Try(func() (err error) { res, err = ok.GetRandomValidators(ctx, size, id); return })
 		out := []any{}
 		for _, v := range res {
-			out = append(out, valIdx(v.String()))
+			if i := valIdx(v.String()); i >= 0 {
+				out = append(out, i)
+			} else {
+				out = append(out, 999) // not a validator at all (e.g. an empty address)
+			}
 		}
 		tr.Op(fx.M{"op": "randomValidators", "eligible": elig, "all": all, "size": size, "tries": p.SamplingTryCount,
 			"seed": hex.EncodeToString(seed), "nonce": hex.EncodeToString(sdk.Uint64ToBigEndian(id)), "chain": chain,
